@@ -38,6 +38,31 @@ where
     }
 }
 
+/// A user adapter that fails when it sees a reference message.
+#[derive(Clone, Debug)]
+pub struct FailOnRef;
+impl SoloMarker for FailOnRef {}
+
+#[async_trait]
+impl<'a, S, A> Adapter<'a, S, A> for FailOnRef
+where
+    S: AsRef<str> + Send + Sync + 'a,
+    A: AsRef<[S]> + Send + Sync + 'a,
+{
+    async fn start(&mut self, stream: &mut SearchStream<'a, S, A>, base: &str, scope: Scope, filter: &str, attrs: A) -> LResult<()> {
+        stream.start(base, scope, filter, attrs).await
+    }
+    async fn next(&mut self, stream: &mut SearchStream<'a, S, A>) -> LResult<Option<ResultEntry>> {
+        match stream.next().await {
+            Ok(Some(re)) if re.is_ref() => Err(ldap3::LdapError::AdapterInit("reference refused".into())),
+            other => other,
+        }
+    }
+    async fn finish(&mut self, stream: &mut SearchStream<'a, S, A>) -> LdapResult {
+        stream.finish().await
+    }
+}
+
 #[derive(Clone, Copy, Debug, PartialEq, Eq, Hash, Serialize, Deserialize)]
 pub enum Variant {
     Direct,
@@ -50,6 +75,8 @@ pub enum Variant {
     /// PagedResults adapter; the server splits the item sequence into pages
     Paged,
     EntriesOnlyPaged,
+    /// a user adapter that returns an error of its own when a reference arrives
+    FailOnRef,
 }
 
 #[derive(Clone, Copy, Debug, PartialEq, Eq, Hash, Serialize, Deserialize)]
@@ -82,7 +109,7 @@ pub struct Case {
 
 fn strat(_: &Ctx) -> BoxedStrategy<Case> {
     let item = (prop_oneof![4 => respgen::entry_resp(), 2 => respgen::reference_resp(), 2 => respgen::intermediate_resp()], proptest::option::weighted(0.4, resp_controls(2))).prop_map(|(resp, ctrls)| ItemSpec { resp, ctrls });
-    let variant = prop_oneof![3 => Just(Variant::Direct), 3 => Just(Variant::EntriesOnly), 1 => Just(Variant::Pass), 1 => Just(Variant::PassEntriesOnly), 1 => Just(Variant::EntriesOnlyPass), 2 => Just(Variant::Conv), 2 => Just(Variant::Paged), 2 => Just(Variant::EntriesOnlyPaged)];
+    let variant = prop_oneof![3 => Just(Variant::Direct), 3 => Just(Variant::EntriesOnly), 1 => Just(Variant::Pass), 1 => Just(Variant::PassEntriesOnly), 1 => Just(Variant::EntriesOnlyPass), 2 => Just(Variant::Conv), 2 => Just(Variant::Paged), 2 => Just(Variant::EntriesOnlyPaged), 2 => Just(Variant::FailOnRef)];
     let call = prop_oneof![5 => Just(CallKind::Next), 2 => Just(CallKind::Finish), 2 => Just(CallKind::State)];
     let script = prop_oneof![
         3 => vec(call, 1..=14),
@@ -100,7 +127,7 @@ fn strat(_: &Ctx) -> BoxedStrategy<Case> {
             let paged = matches!(variant, Variant::Paged | Variant::EntriesOnlyPaged);
             // the final result of a paged search must not carry a second paging control of its own
             let fin_ctrls = if paged { fin_ctrls.map(|v: Vec<RCtl>| v.into_iter().filter(|c| c.oid != crate::props::c16::PAGED_OID).collect()) } else { fin_ctrls };
-            Case { items, fin, fin_ctrls, variant, script, cut_after: if paged { None } else { cut_after }, page_cuts, sched }
+            Case { items, fin, fin_ctrls, variant, script, cut_after, page_cuts, sched }
         })
         .boxed()
 }
@@ -142,10 +169,27 @@ fn ref_uris(r: &Resp) -> Vec<String> {
     }
 }
 
+/// end offsets (in items) of the pages the server serves for the paged variants
+fn page_ends(c: &Case) -> Vec<usize> {
+    let mut cuts: Vec<usize> = c.page_cuts.iter().map(|x| (*x as usize).min(c.items.len())).collect();
+    cuts.push(c.items.len());
+    cuts.sort();
+    cuts
+}
+
 /// Reference state machine (DESIGN.md Appendix B).
 fn model(c: &Case) -> Vec<Ret> {
     let entries_only = matches!(c.variant, Variant::EntriesOnly | Variant::PassEntriesOnly | Variant::EntriesOnlyPass | Variant::EntriesOnlyPaged);
-    let avail = c.cut_after.map(|k| k as usize).unwrap_or(usize::MAX);
+    let paged = matches!(c.variant, Variant::Paged | Variant::EntriesOnlyPaged);
+    let avail = if paged {
+        // the server closes after serving page k (if that is not the last page): items of pages 0..=k are available
+        match (c.cut_after, page_ends(c)) {
+            (Some(k), ends) if (k as usize) + 1 < ends.len() => ends[k as usize],
+            _ => usize::MAX,
+        }
+    } else {
+        c.cut_after.map(|k| k as usize).unwrap_or(usize::MAX)
+    };
     let mut pos = 0usize; // index into items, items.len() = the final result
     let mut state = "Active";
     let mut stored = false;
@@ -174,6 +218,11 @@ fn model(c: &Case) -> Vec<Ret> {
                     }
                     let it = &c.items[pos];
                     pos += 1;
+                    if c.variant == Variant::FailOnRef && matches!(it.resp, Resp::Reference(_)) {
+                        out.push(Ret::Err("AdapterInit".into()));
+                        state = "Error";
+                        break;
+                    }
                     if entries_only && !matches!(it.resp, Resp::Entry(_)) {
                         collected.extend(ref_uris(&it.resp));
                         continue;
@@ -239,9 +288,7 @@ pub fn check(case: &Case, obs: &mut Obs) -> Result<(), Fail> {
         let srv = tokio::spawn(async move {
             if matches!(c2.variant, Variant::Paged | Variant::EntriesOnlyPaged) {
                 // split the item sequence at the generated cut points and serve it page by page
-                let mut cuts: Vec<usize> = c2.page_cuts.iter().map(|c| (*c as usize).min(c2.items.len())).collect();
-                cuts.push(c2.items.len());
-                cuts.sort();
+                let cuts = page_ends(&c2);
                 let mut start = 0usize;
                 let npages = cuts.len();
                 for (pi, end) in cuts.into_iter().enumerate() {
@@ -266,6 +313,12 @@ pub fn check(case: &Case, obs: &mut Obs) -> Result<(), Fail> {
                     ctrls.push(pc);
                     bytes.extend_from_slice(&RespMsg { id: m.id, resp: Resp::result(5, res), ctrls: Some(ctrls) }.encode());
                     wire.push(&bytes);
+                    if !last && c2.cut_after == Some(pi as u8) {
+                        // connection lost at a page boundary
+                        quiesce().await;
+                        wire.end_read(ReadEnd::Eof);
+                        return;
+                    }
                 }
                 return;
             }
@@ -309,6 +362,7 @@ pub fn check(case: &Case, obs: &mut Obs) -> Result<(), Fail> {
                         Variant::Direct => ldap.streaming_search(base, Scope::Subtree, filter, attrs).await,
                         Variant::EntriesOnly => ldap.streaming_search_with(EntriesOnly::new(), base, Scope::Subtree, filter, attrs).await,
                         Variant::Pass => ldap.streaming_search_with(Pass, base, Scope::Subtree, filter, attrs).await,
+                        Variant::FailOnRef => ldap.streaming_search_with(FailOnRef, base, Scope::Subtree, filter, attrs).await,
                         Variant::Paged => ldap.streaming_search_with(ldap3::adapters::PagedResults::new(3), base, Scope::Subtree, filter, attrs).await,
                         Variant::EntriesOnlyPaged => {
                             let ad: Vec<Box<dyn Adapter<_, _>>> = vec![Box::new(EntriesOnly::new()), Box::new(ldap3::adapters::PagedResults::new(3))];
@@ -448,7 +502,7 @@ pub fn property() -> Property {
     Property {
         id: "C10",
         level: "exploration",
-        rule: "generated: a server item sequence (0-8 of entry / reference with 1-3 URIs / intermediate, each with 0-2 controls), a final result (any code, referrals, controls), optionally a connection cut after k PDUs; a stream variant (direct, EntriesOnly, user pass-through adapter, [pass-through, EntriesOnly], [EntriesOnly, pass-through], PagedResults and [EntriesOnly, PagedResults] with the item sequence served in generated pages, or the search() call); a call script of 1-14 calls from next/finish/state in any order (incl. next after the end, early finish, next after finish, double finish). Oracle: reference state machine of DESIGN.md Appendix B - every return value (items with their controls in server order, Ok(None), errors, finish() = server result iff read to the end else code 88, second finish code 80) and every state() equal the model; search(): entries in order, referral list = result referrals + all reference URIs as a multiset, intermediates dropped. Non-trivial: the script leaves the happy path or the item sequence mixes >=2 kinds. Distinct = debug rendering of the case.",
+        rule: "generated: a server item sequence (0-8 of entry / reference with 1-3 URIs / intermediate, each with 0-2 controls), a final result (any code, referrals, controls), optionally a connection cut after k PDUs; a stream variant (direct, EntriesOnly, user pass-through adapter, [pass-through, EntriesOnly], [EntriesOnly, pass-through], PagedResults and [EntriesOnly, PagedResults] with the item sequence served in generated pages (optionally with the connection lost at a page boundary), a user adapter that fails on a reference message, or the search() call); a call script of 1-14 calls from next/finish/state in any order (incl. next after the end, early finish, next after finish, double finish). Oracle: reference state machine of DESIGN.md Appendix B - every return value (items with their controls in server order, Ok(None), errors, finish() = server result iff read to the end else code 88, second finish code 80) and every state() equal the model; search(): entries in order, referral list = result referrals + all reference URIs as a multiset, intermediates dropped. Non-trivial: the script leaves the happy path or the item sequence mixes >=2 kinds. Distinct = debug rendering of the case.",
         assumptions: &["all PDUs of the search are delivered before the calls are made, so call results do not depend on timing", "synthetic results are compared by code only"],
         lanes: vec![Box::new(PLane { name: "streams", cases: |t| t.pick(2_000, 30_000), strat, check })],
         workers: (8, 16),
